@@ -1,0 +1,7 @@
+//go:build !verif
+
+package utils
+
+// VerifYield marks a yield point used by the verification harness. Without
+// the verif build tag it is a no-op.
+func VerifYield(string, ...any) {}
